@@ -46,6 +46,8 @@ type algoCfg struct {
 }
 
 type algoSUT struct {
+	faultyID    int // the listener registered last panics on every other notification (0: none)
+	faultyCalls int
 	cfg       algoCfg
 	outer     core.Limit // what the application talks to (maybe a wrapper)
 	inner     core.Limit
@@ -59,10 +61,21 @@ type algoSUT struct {
 	smoothing float64
 }
 
+// listenerFault is what a faulty change listener of the harness panics with (the caller recovers, as a recovery middleware
+// would, and goes on using the limit).
+const listenerFault = "verif: change listener fault"
+
 func (s *algoSUT) register() int {
 	s.nl++
 	id := s.nl
-	s.outer.NotifyOnChange(func(v int) { s.notes[id] = append(s.notes[id], v) })
+	s.outer.NotifyOnChange(func(v int) {
+		s.notes[id] = append(s.notes[id], v)
+		if id == s.faultyID {
+			if s.faultyCalls++; s.faultyCalls%2 == 0 {
+				panic(listenerFault)
+			}
+		}
+	})
 	return id
 }
 
@@ -265,6 +278,10 @@ func (s *algoSUT) sample(start, rtt int64, inflight int, drop bool) J {
 		}()
 		s.outer.OnSample(start, rtt, inflight, drop)
 	}()
+	lfault := panicked == listenerFault
+	if lfault {
+		panicked = "" // the harness's own listener: the sample was processed, its caller recovered
+	}
 	after := s.probeState()
 	probe := false
 	if s.vegas != nil {
@@ -309,7 +326,7 @@ func (s *algoSUT) sample(start, rtt int64, inflight int, drop bool) J {
 		cls, e = "out-of-range", 0
 	}
 	return J{"est": e, "class": cls, "panic": panicked != "", "panicmsg": panicked, "base": chunks(b), "baseset": set, "probe": probe,
-		"notes": notes, "metrics": m, "applim": applim}
+		"notes": notes, "metrics": m, "applim": applim, "lfault": lfault}
 }
 
 func pickRTT(r *rng, base int64) int64 {
@@ -390,6 +407,11 @@ func TestLimitRandom(t *testing.T) {
 		for i := 0; i < nl; i++ {
 			s.register()
 		}
+		if nl > 0 && cfg.Wrap == "none" && k%3 == 2 {
+			// the listener registered last faults on every other notification; its caller recovers and goes on: whatever the
+			// algorithm had to do with that sample - store the estimate, reset a baseline - has been done
+			s.faultyID = nl
+		}
 		w.write(J{"ev": "Reset", "trace": k, "cfg": cfg, "obs": J{"est": s.outer.EstimatedLimit(), "listeners": nl}})
 		i := 0
 		clock := int64(1e9)
@@ -419,7 +441,7 @@ func TestLimitRandom(t *testing.T) {
 			if b, set := s.baseline(); set {
 				base = b
 			}
-			if r.chance(1, 60) && s.nl < 3 {
+			if r.chance(1, 60) && s.nl < 3 && s.faultyID == 0 {
 				s.register()
 				i++
 				w.write(J{"ev": "Register", "trace": k, "i": i, "listeners": s.nl})
